@@ -120,6 +120,49 @@ fn up(x: f64, k: i64) -> f64 {
   f64::from_bits((x.to_bits() as i64 + k) as u64)
 }
 
+
+/// temperatures (°C) where implementations like to go wrong: a fine non-integer grid around both
+/// reference temperatures (20 °C linear laws, 24.5 °C LiNb_MgO) incl. values that round to them, ±1 ulp,
+/// and the ends of the statement's range
+fn t_special() -> Vec<f64> {
+  let mut v: Vec<f64> = vec![];
+  for r in [20.0f64, 24.5] {
+    for d in [0.0, 1e-9, 1e-6, 1e-3, 0.1, 0.25, 0.4, 0.49, 0.5, 0.51, 0.6, 1.0, 1.5, 4.5] {
+      v.push(r + d);
+      v.push(r - d);
+    }
+    v.push(up(r, 1));
+    v.push(up(r, -1));
+  }
+  for t in [-50.0, -49.999, -49.5, -49.0, -0.5, 0.0, 0.5, 19.0, 21.0, 24.0, 25.0, 99.5, 100.0, 199.0, 199.5, 199.999, 200.0] {
+    v.push(t);
+  }
+  v.push(up(-50.0, -1)); // −50 + 1 ulp (towards zero)
+  v.push(up(200.0, -1));
+  v.retain(|t| *t >= -50.0 && *t <= 200.0);
+  v.sort_by(|a, b| a.partial_cmp(b).unwrap());
+  v.dedup();
+  v
+}
+
+/// wavelengths (m) inside [lo, hi] at which boundaries sit: the edges, 1 ulp inside them, the KTP branch
+/// point ± ulps, whole micrometres
+fn lam_special(lo: f64, hi: f64) -> Vec<f64> {
+  let mut v = vec![lo, up(lo, 1), up(hi, -1), hi, (lo * hi).sqrt()];
+  for k in -2i64..=2 {
+    v.push(up(1.2e-6, k));
+  }
+  v.push(1.2 * 1e-6);
+  for m in 1..=13 {
+    v.push(m as f64 * 1e-6);
+    v.push(m as f64 * 1000.0 * 1e-9);
+  }
+  v.retain(|l| *l >= lo && *l <= hi);
+  v.sort_by(|a, b| a.partial_cmp(b).unwrap());
+  v.dedup();
+  v
+}
+
 fn axis_name(a: OpticAxisType) -> &'static str {
   match a {
     OpticAxisType::PositiveUniaxial => "PositiveUniaxial",
@@ -167,6 +210,7 @@ pub fn run(ctx: &mut Ctx) {
     temperature_law(ctx, c);
   }
   expression_crystals(ctx);
+  routes(ctx);
   history_independence(ctx);
 }
 
@@ -193,6 +237,16 @@ fn correspondence(ctx: &mut Ctx, c: &CrystalType) {
         ctx.count(&format!("indices/{}/edge-or-branch", id));
         k_indices(ctx, c, *lam, kelvin(*t));
       }
+    }
+  }
+  // boundary wavelengths × the fine temperature grid
+  for lam in lam_special(lo, hi).iter().filter(|l| {
+    let um = **l / 1e-6;
+    (um - um.round()).abs() > 1e-9 || um.round() as i64 <= 2
+  }) {
+    for t in t_special().iter() {
+      ctx.count(&format!("indices/{}/special", id));
+      k_indices(ctx, c, *lam, kelvin(*t));
     }
   }
   // log-spaced wavelengths with a jitter, temperatures fixed ∪ random
@@ -318,10 +372,27 @@ fn statement_grid(ctx: &mut Ctx, c: &CrystalType) {
   let id = vname(c);
   let g = if ctx.thorough { 50_000usize } else { 2_000 };
   let mut temps: Vec<f64> = T_FIXED.to_vec();
+  temps.extend_from_slice(&[19.6, 20.4, 24.2, 24.8]); // round to the reference temperatures without being them
   let extra = if ctx.thorough { 6 } else { 2 };
   for _ in 0..extra {
     temps.push(ctx.rng.range(-50.0, 200.0));
   }
+  // log-spaced grid incl. both edges, plus the boundary wavelengths (1 ulp inside the edges, the 1.2 µm
+  // branch point ± ulps, whole micrometres)
+  let mut lams: Vec<f64> = (0..g)
+    .map(|i| {
+      if i == 0 {
+        lo
+      } else if i == g - 1 {
+        hi
+      } else {
+        (lo.ln() + (hi.ln() - lo.ln()) * (i as f64 / (g - 1) as f64)).exp().clamp(lo, hi)
+      }
+    })
+    .collect();
+  lams.extend(lam_special(lo, hi));
+  lams.sort_by(|a, b| a.partial_cmp(b).unwrap());
+  lams.dedup();
   for tc in temps.iter() {
     let tk = kelvin(*tc);
     let mut prev: Option<(f64, [f64; 3])> = None;
@@ -331,15 +402,7 @@ fn statement_grid(ctx: &mut Ctx, c: &CrystalType) {
     let mut nmin = f64::INFINITY;
     let mut nmax = f64::NEG_INFINITY;
     let mut gap_min = f64::INFINITY;
-    for i in 0..g {
-      let u = i as f64 / (g - 1) as f64;
-      let lam = if i == 0 {
-        lo
-      } else if i == g - 1 {
-        hi
-      } else {
-        (lo.ln() + (hi.ln() - lo.ln()) * u).exp().clamp(lo, hi)
-      };
+    for lam in lams.iter().copied() {
       if let Some((pl, _)) = prev {
         if lam <= pl {
           continue;
@@ -364,7 +427,10 @@ fn statement_grid(ctx: &mut Ctx, c: &CrystalType) {
       }
       if let Some((pl, pn)) = prev {
         for a in 0..3 {
-          if !(n[a] < pn[a]) && bad_mono.is_none() {
+          // neighbours a few ulp apart cannot be resolved by the rounded formula: non-increasing within
+          // 4 ulp there, strictly decreasing everywhere else
+          let decreasing = if (lam - pl) <= 1e-9 * pl { n[a] <= pn[a] + 2e-15 } else { n[a] < pn[a] };
+          if !decreasing && bad_mono.is_none() {
             bad_mono = Some(format!(
               "crystal={} T_C={} lam1_nm={} lam2_nm={} axis={} n1={:e} n2={:e}",
               id,
@@ -402,7 +468,7 @@ fn statement_grid(ctx: &mut Ctx, c: &CrystalType) {
       prev = Some((lam, n));
     }
     ctx.count(&format!("grid/{}", id));
-    let base = format!("crystal={} T_C={} points={} nmin={:.6} nmax={:.6} classgap_min={:.3e}", id, tc, g, nmin, nmax, gap_min);
+    let base = format!("crystal={} T_C={} points={} nmin={:.6} nmax={:.6} classgap_min={:.3e}", id, tc, lams.len(), nmin, nmax, gap_min);
     ctx.s("C01.bounds", bad_bounds.is_none(), &format!("bounds/{}", id), bad_bounds.as_ref().unwrap_or(&base));
     ctx.s("C01.monotone", bad_mono.is_none(), &format!("monotone/{}", id), bad_mono.as_ref().unwrap_or(&base));
     ctx.s("C01.class", bad_class.is_none(), &format!("class/{}", id), bad_class.as_ref().unwrap_or(&base));
@@ -427,58 +493,70 @@ fn temperature_law(ctx: &mut Ctx, c: &CrystalType) {
   } else {
     "linear"
   };
-  for i in 0..(if kind == "published-law" { 0 } else { n }) {
-    let lam = match i {
-      0 => lo,
-      1 => hi,
-      _ => ctx.rng.log_range(lo, hi),
-    };
-    let tc = match i % 5 {
-      0 => -50.0,
-      1 => 200.0,
-      _ => ctx.rng.range(-50.0, 200.0),
-    };
-    let (n_t, n_ref, n_a, n_b) = match (
-      idx(c, lam, kelvin(tc)),
-      idx(c, lam, kelvin(20.0)),
-      idx(c, lam, kelvin(-50.0)),
-      idx(c, lam, kelvin(200.0)),
-    ) {
-      (Some(a), Some(b), Some(c), Some(d)) => (a, b, c, d),
+  // wavelengths: the boundary ones and n random; at each wavelength the temperature alone is scanned over the
+  // fine grid (sorted, so consecutive calls differ in T only), then a few random temperatures
+  let mut lams = lam_special(lo, hi);
+  let n_lam = if kind == "published-law" { 0 } else { n / 10 };
+  for _ in 0..n_lam {
+    lams.push(ctx.rng.log_range(lo, hi));
+  }
+  if kind == "published-law" {
+    lams.clear();
+  }
+  let tspec = t_special();
+  let mut cases = 0usize;
+  for lam in lams.iter().copied() {
+    let (n_ref, n_a, n_b) = match (idx(c, lam, kelvin(20.0)), idx(c, lam, kelvin(-50.0)), idx(c, lam, kelvin(200.0))) {
+      (Some(b), Some(c), Some(d)) => (b, c, d),
       _ => {
-        bad.get_or_insert(format!("crystal={} lam_nm={} T_C={} panic=1", id, lam * 1e9, tc));
+        bad.get_or_insert(format!("crystal={} lam_nm={} panic=1", id, lam * 1e9));
         continue;
       }
     };
-    for a in 0..3 {
-      match kind {
-        // declared temperature-independent: identical at every temperature
-        "independent" => {
-          if !(n_t[a] == n_ref[a] && n_a[a] == n_ref[a] && n_b[a] == n_ref[a]) && bad.is_none() {
-            bad = Some(format!(
-              "crystal={} kind=independent lam_nm={} T_C={} axis={} n_T={:e} n_20={:e}",
-              id, lam * 1e9, tc, a, n_t[a], n_ref[a]
-            ));
-          }
+    let mut temps = tspec.clone();
+    for _ in 0..6 {
+      temps.push(ctx.rng.range(-50.0, 200.0));
+    }
+    for tc in temps.iter().copied() {
+      cases += 1;
+      let n_t = match idx(c, lam, kelvin(tc)) {
+        Some(a) => a,
+        None => {
+          bad.get_or_insert(format!("crystal={} lam_nm={} T_C={} panic=1", id, lam * 1e9, tc));
+          continue;
         }
-        // linear in T: n(T) lies on the chord through n(−50) and n(200), and so does the
-        // reference-temperature value n(20)
-        "linear" => {
-          let slope = (n_b[a] - n_a[a]) / 250.0;
-          let e1 = (n_t[a] - (n_a[a] + (tc + 50.0) * slope)).abs();
-          let e2 = (n_ref[a] - (n_a[a] + 70.0 * slope)).abs();
-          worst = worst.max(e1).max(e2);
-          if !(e1 <= 1e-12 && e2 <= 1e-12) && bad.is_none() {
-            bad = Some(format!(
-              "crystal={} kind=linear lam_nm={} T_C={} axis={} dev={:e} dev_ref={:e}",
-              id, lam * 1e9, tc, a, e1, e2
-            ));
+      };
+      for a in 0..3 {
+        match kind {
+          // declared temperature-independent: identical at every temperature
+          "independent" => {
+            if !(n_t[a] == n_ref[a] && n_a[a] == n_ref[a] && n_b[a] == n_ref[a]) && bad.is_none() {
+              bad = Some(format!(
+                "crystal={} kind=independent lam_nm={} lam_bits={} T_C={} axis={} n_T={:e} n_20={:e}",
+                id, lam * 1e9, fl(lam), tc, a, n_t[a], n_ref[a]
+              ));
+            }
           }
+          // linear in T: n(T) lies on the chord through n(−50) and n(200), and so does the
+          // reference-temperature value n(20)
+          "linear" => {
+            let slope = (n_b[a] - n_a[a]) / 250.0;
+            let e1 = (n_t[a] - (n_a[a] + (tc + 50.0) * slope)).abs();
+            let e2 = (n_ref[a] - (n_a[a] + 70.0 * slope)).abs();
+            worst = worst.max(e1).max(e2);
+            if !(e1 <= 1e-12 && e2 <= 1e-12) && bad.is_none() {
+              bad = Some(format!(
+                "crystal={} kind=linear lam_nm={} lam_bits={} T_C={} axis={} dev={:e} dev_ref={:e}",
+                id, lam * 1e9, fl(lam), tc, a, e1, e2
+              ));
+            }
+          }
+          _ => {}
         }
-        _ => {}
       }
     }
   }
+  let n = cases;
   ctx.count(&format!("temperature/{}/{}", id, kind));
   if kind == "published-law" {
     return;
@@ -643,5 +721,128 @@ fn history_independence(ctx: &mut Ctx) {
     let _ = n;
     let base = format!("crystal={} re-evaluations={}", label, n);
     ctx.s("C01.history", bad.is_none(), &format!("history/{}", label), bad.as_ref().unwrap_or(&base));
+  }
+}
+
+// --------------------------------------------------------------------------- S: every API route to the indices
+/// The crystal reached through `from_string`, `FromStr`, serde, a serde round trip, a `CrystalConfig` JSON
+/// (→ `CrystalSetup`, whose `crystal`/`temperature` are what `index_along` feeds to `get_indices`) and a
+/// hand-built `CrystalSetup` must return the very same indices as the enum variant called directly.
+/// Expression crystals: JSON via serde, JSON via `from_string`, the `no = … / ne = …` equation form and
+/// a `CrystalConfig` whose `kind` is the expression object — all must agree with each other bit for bit
+/// (their agreement with the built-in is `C01.expr_same_formula`).
+fn routes(ctx: &mut Ctx) {
+  use spdcalc::{CrystalConfig, CrystalSetup};
+  let cs = variants();
+  let n_rand = if ctx.thorough { 60 } else { 8 };
+  let tspec = t_special();
+  let cfg_json = |kind: &str, tc: f64| {
+    format!(
+      r#"{{"kind":{},"pm_type":"e->eo","phi_deg":0,"theta_deg":0,"length_um":2000,"temperature_c":{:?}}}"#,
+      kind, tc
+    )
+  };
+  let points = |ctx: &mut Ctx, lo: f64, hi: f64| -> Vec<(f64, f64)> {
+    let mut v = vec![];
+    for (k, lam) in lam_special(lo, hi).into_iter().enumerate() {
+      v.push((lam, tspec[(k * 7) % tspec.len()]));
+      v.push((lam, -50.0));
+      v.push((lam, 200.0));
+    }
+    for _ in 0..n_rand {
+      let t = if ctx.rng.coin() { *ctx.rng.pick(&tspec) } else { ctx.rng.range(-50.0, 200.0) };
+      v.push((ctx.rng.log_range(lo, hi), t));
+    }
+    v
+  };
+  for c in cs.iter() {
+    let id = vname(c);
+    let (lo, hi) = gen_window(c);
+    let meta_id = c.get_meta().id;
+    let mut alts: Vec<(&str, Option<CrystalType>)> = vec![
+      ("from_string", guard(|| CrystalType::from_string(meta_id).ok()).flatten()),
+      ("FromStr", guard(|| meta_id.parse::<CrystalType>().ok()).flatten()),
+      ("serde", serde_json::from_str::<CrystalType>(&format!("\"{}\"", meta_id)).ok()),
+      ("serde_roundtrip", serde_json::to_string(c).ok().and_then(|j| serde_json::from_str::<CrystalType>(&j).ok())),
+      ("display_parse", guard(|| CrystalType::from_string(&c.to_string()).ok()).flatten()),
+      ("clone", Some(c.clone())),
+    ];
+    let mut bad: Option<String> = None;
+    let mut cases = 0;
+    for (lam, tc) in points(ctx, lo, hi) {
+      let tk = kelvin(tc);
+      let direct = idx(c, lam, tk);
+      for (name, alt) in alts.iter_mut() {
+        cases += 1;
+        let got = alt.as_ref().and_then(|a| idx(a, lam, tk));
+        if !(alt.is_some() && same_bits(&direct, &got)) && bad.is_none() {
+          bad = Some(format!("crystal={} route={} lam_bits={} lam_nm={} T_C={} direct={:?} route_value={:?}", id, name, fl(lam), lam * 1e9, tc, direct, got).replace(", ", ","));
+        }
+      }
+      // CrystalConfig JSON → CrystalSetup ; hand-built CrystalSetup
+      let via_cfg = serde_json::from_str::<CrystalConfig>(&cfg_json(&format!("\"{}\"", meta_id), tc)).ok().map(CrystalSetup::from);
+      let by_hand = via_cfg.clone().map(|mut s| {
+        s.crystal = c.clone();
+        s.temperature = tk * K;
+        s
+      });
+      for (name, setup) in [("config_json", &via_cfg), ("crystal_setup", &by_hand)] {
+        cases += 1;
+        let got = setup.as_ref().and_then(|s| guard(|| {
+          let n = s.crystal.get_indices(lam * M, s.temperature);
+          [n.x, n.y, n.z]
+        }));
+        // the JSON text route may round the temperature differently by an ulp (serde_json's float parser):
+        // compare at the temperature the setup actually holds, which must be the requested one to 1e-9 K
+        let t_setup = setup.as_ref().map(|s| *(s.temperature / K)).unwrap_or(f64::NAN);
+        let direct = if t_setup.to_bits() == tk.to_bits() { direct } else { idx(c, lam, t_setup) };
+        if !(setup.is_some() && (t_setup - tk).abs() <= 1e-9 && same_bits(&direct, &got)) && bad.is_none() {
+          bad = Some(format!("crystal={} route={} lam_bits={} lam_nm={} T_C={} direct={:?} route_value={:?}", id, name, fl(lam), lam * 1e9, tc, direct, got).replace(", ", ","));
+        }
+      }
+    }
+    ctx.count("routes/builtin");
+    let base = format!("crystal={} route_evaluations={}", id, cases);
+    ctx.s("C01.routes", bad.is_none(), &format!("routes/{}", id), bad.as_ref().unwrap_or(&base));
+  }
+  // expression crystals
+  for (v, json, l_from, l_to) in expr_sources() {
+    let built_in = cs.iter().find(|c| vname(c) == v).unwrap().clone();
+    let (lo, hi) = gen_window(&built_in);
+    // {"no":"A","ne":"B"}  →  no = A \n ne = B
+    let eqn = json.trim_matches(|ch| ch == '{' || ch == '}').split("\",\"").map(|kv| {
+      let kv = kv.trim_matches('"');
+      let (k, val) = kv.split_once("\":\"").unwrap_or((kv, ""));
+      format!("  {} = {}\n", k, val)
+    }).collect::<String>();
+    // the documented equation form: one `name = expression` per line, each line terminated (the parser
+    // wraps the text in braces, so an unterminated last line swallows the closing brace → Err)
+    let eqn = format!("\n{}", eqn);
+    let base_ex = serde_json::from_str::<CrystalType>(json).ok();
+    let alts: Vec<(&str, Option<CrystalType>)> = vec![
+      ("from_string_json", guard(|| CrystalType::from_string(json).ok()).flatten()),
+      ("from_string_equations", guard(|| CrystalType::from_string(&eqn).ok()).flatten()),
+      ("FromStr", guard(|| json.parse::<CrystalType>().ok()).flatten()),
+      ("clone", base_ex.clone()),
+      ("config_json", serde_json::from_str::<CrystalConfig>(&cfg_json(json, 20.0)).ok().map(|c| CrystalSetup::from(c).crystal)),
+    ];
+    let mut bad: Option<String> = None;
+    let mut cases = 0;
+    let label = format!("{}{}", v, if l_to < 2.0 { "-lo" } else if l_from > 0.0 { "-hi" } else { "" });
+    for (lam, tc) in points(ctx, lo, hi) {
+      let tk = kelvin(tc);
+      set_expr_label(&label);
+      let direct = base_ex.as_ref().and_then(|e| idx(e, lam, tk));
+      for (name, alt) in alts.iter() {
+        cases += 1;
+        let got = alt.as_ref().and_then(|a| idx(a, lam, tk));
+        if !(alt.is_some() && base_ex.is_some() && same_bits(&direct, &got)) && bad.is_none() {
+          bad = Some(format!("crystal=expr/{} route={} lam_bits={} lam_nm={} T_C={} serde_value={:?} route_value={:?}", label, name, fl(lam), lam * 1e9, tc, direct, got).replace(", ", ","));
+        }
+      }
+    }
+    ctx.count("routes/expr");
+    let base = format!("crystal=expr/{} route_evaluations={}", label, cases);
+    ctx.s("C01.routes", bad.is_none(), &format!("routes/expr/{}", v), bad.as_ref().unwrap_or(&base));
   }
 }
